@@ -320,6 +320,50 @@ class Flow:
             return st, dt, df
         return None
 
+    def _forwarded_attr(self, attr: str, at: int):
+        """The unique `self.x = v` (plain assignment, single target) whose value self.x still has at `at`."""
+        if not hasattr(self, "_attr_stores"):
+            self._attr_stores: dict[str, list[ast.Assign]] = {}
+            self._self_calls: set[int] = set()
+            for st in ast.walk(self.fn.node):
+                if isinstance(st, ast.Assign) and len(st.targets) == 1 and isinstance(st.targets[0], ast.Attribute):
+                    d = dotted(st.targets[0])
+                    if d:
+                        self._attr_stores.setdefault(d, []).append(st)
+                elif isinstance(st, (ast.Assign, ast.AugAssign, ast.AnnAssign, ast.For, ast.With)):
+                    for t in ast.walk(st):
+                        if isinstance(t, ast.Attribute) and isinstance(t.ctx, ast.Store):
+                            d = dotted(t)
+                            if d:
+                                self._attr_stores.setdefault(d, []).append(None)  # a store form that is never forwarded
+                if isinstance(st, ast.Call):
+                    f = st.func
+                    touches_self = (isinstance(f, ast.Attribute) and isinstance(f.value, ast.Name) and f.value.id == "self") or \
+                        any(isinstance(a, ast.Name) and a.id == "self" for a in list(st.args) + [k.value for k in st.keywords]) or \
+                        (isinstance(f, ast.Attribute) and isinstance(f.value, ast.Call) and dotted(f.value.func) == "super")
+                    if touches_self:
+                        try:
+                            self._self_calls.add(self.node_for(st))
+                        except AnalysisError:
+                            pass
+        stores = self._attr_stores.get(attr)
+        if not stores or len(stores) != 1 or stores[0] is None:
+            return None
+        st = stores[0]
+        sn = self.cfg.node_for(st)
+        if sn == at or not self.cfg.dominates(sn, at):
+            return None
+        after = self.cfg.reachable(sn)
+        for c in self._self_calls:
+            # a method of the object runs between the store and the read: it may rebind the attribute
+            if c != sn and c in after and (c == at or at in self.cfg.reachable(c, avoid={sn})):
+                if c == at:
+                    continue   # the read is an argument of that call: evaluated before the call runs
+                return None
+        if sn in self.cfg.reachable(sn) and False:
+            return None
+        return st
+
     def _forwarded_store(self, name: str, key, at: int) -> "Def | None":
         """The unique `name[key] = v` whose value `name[key]` still has at `at` (no other possible write in between)."""
         def const_key(d: "Def"):
@@ -385,6 +429,13 @@ class Flow:
                 if len(ds) != 1:
                     return leave(node)
                 d = ds[0]
+                if d.kind == "unpack" and d.value is not None and d.index and all(isinstance(i, int) for i in d.index) \
+                        and isinstance(d.value, (ast.Call, ast.Name, ast.Attribute, ast.Subscript)):
+                    # `a, b = f(x)`: a is f(x)[0]
+                    base = flow._expand(clone(d.value), d.value, d.node, depth - 1, stop, root)
+                    for i in d.index:
+                        base = ast.Subscript(value=base, slice=ast.Constant(i), ctx=ast.Load())
+                    return ast.copy_location(base, node)
                 if d.kind != "assign" or d.value is None:
                     return leave(node)
                 if any(m.var == node.id and m.kind == "mutate" for m in flow.defs_at.get(at, ())):
@@ -403,6 +454,16 @@ class Flow:
                     st = flow._forwarded_store(node.value.id, node.slice.value, at)
                     if st is not None:
                         return flow._expand(clone(st.value.elts[0]), st.value.elts[0], st.node, depth - 1, stop, root)
+                return self.generic_visit(node)
+
+            def visit_Attribute(self, node: ast.Attribute):  # noqa: N802
+                # `self.x = v ... self.x`: the attribute still holds v when nothing in between can have changed it
+                if isinstance(node.ctx, ast.Load) and depth > 0:
+                    d = dotted(node)
+                    if d is not None and d.startswith("self.") and d.count(".") == 1 and d not in stop:
+                        st = flow._forwarded_attr(d, at)
+                        if st is not None:
+                            return flow._expand(clone(st.value), st.value, flow.cfg.node_for(st), depth - 1, stop, root)
                 return self.generic_visit(node)
 
             def visit_Call(self, node: ast.Call):  # noqa: N802
